@@ -101,6 +101,8 @@ def plan(ctx):
         alpha = parsex.ALPHABETS[(notation, 'reduced')]
         for store in STORES:
             for n in range(0, N + 1):
+                if n == 6 and store != 'empty':
+                    continue    # thorough: the longest polish inputs on the empty store only
                 if n >= 5:
                     # partition over worker processes by the first two characters
                     for ch in alpha:
@@ -113,7 +115,7 @@ def plan(ctx):
                     units.append((notation, n, 'reduced', store, (), budget))
         # deep inputs over a tiny alphabet
         tiny = parsex.ALPHABETS[(notation, 'tiny')]
-        deep = (9 if notation == 'polish' else 7) if ctx.quick else (10 if notation == 'polish' else 9)
+        deep = (9 if notation == 'polish' else 7) if ctx.quick else (10 if notation == 'polish' else 8)
         for n in range(N + 1, deep + 1):
             k = 1 if n <= 7 else (2 if n <= 9 and notation == 'polish' else 3)
             import itertools as _it
